@@ -63,7 +63,8 @@ REQUIRED_COUNTERS = ["oracle_evals", "dispatch_evals", "dispatch_matched", "disp
 # pattern structures
 
 LIT_ATOMS = ["a", "b", "ab", "x1", "user", "api", "v2", ".", "+", "%", "%20", "100%", "(", ")", "$", "-", "_", "~",
-             "*", "[", "]", "^", "{", "}", "a.b", "a+", "c$", "%2F", "=", "&", ":", "@", "!", ","]
+             "*", "[", "]", "^", "{", "}", "a.b", "a+", "c$", "%2F", "=", "&", ":", "@", "!", ",",
+             "\\", "back\\slash", "\\d", "a\\1b", "\\W."]
 GROUPS = {"seg": "[^/]+", "segs": "[^/]*", "num": r"\d+", "any": ".*", "any1": ".+", "low": "[a-z]+", "alt": "a|ab"}
 SEG_ATOMS = ["a", "b", "x1", "%20", "%2F", "%2f", "%25", "%zz", "%C3%A9", "%", "+", ".", "$", "%E6%BC%A2", "%00", "%ff",
              "~", "-", "%4", "A", "7", "(", ")", "*", "=", "&"]
@@ -581,6 +582,8 @@ def pattern_tag(p):
         return "literal-close-paren-in-pattern"
     if any("%" in x for x in lits):
         return "literal-percent-in-pattern"
+    if any("\\" in x for x in lits):
+        return "literal-backslash-in-pattern"
     if lits and p["els"][-1][0] == "lit" and lits[-1].endswith("$") and not p["suf"]:
         return "pattern-ends-with-escaped-dollar"
     return "other"
@@ -639,6 +642,15 @@ def run_reverse(case, ctx, where, router, table, calls, app_ctx):
             url = router.reverse_url(name, *args)
         except Exception as e:  # noqa: BLE001
             if isinstance(e, ValueError) and "Cannot reverse url regex" in str(e):
+                lits = [x[1] for x in p["els"] if x[0] == "lit"]
+                if pat_simple(p) and not any("(" in x or ")" in x for x in lits):
+                    # escaped literals (re.escape output, which re_unescape is documented to invert) and plain
+                    # capturing groups only, no literal parentheses: this is the documented reversible class
+                    ctx.count("reverse_evals")
+                    ctx.violation(f"reverse/declared-irreversible/{tag}",
+                                  "reverse_url refuses ('Cannot reverse url regex') a rule made only of re.escape'd "
+                                  "literals and plain capturing groups", dict(wit, exc=repr(e)))
+                    continue
                 ctx.count("unspecified_reverse_declared_irreversible")
                 continue
             ctx.count("reverse_evals")
